@@ -264,6 +264,8 @@ def shards(tier):
             if how == "leftsemi" and var in NO_SEMI:
                 continue
             strats = JOIN_STRATS if var.startswith("join") else MERGE_STRATS[tier]
+            if tier == "quick" and var.startswith("join"):
+                strats = ("bN-tasks",)  # the default (disk) hash join is enumerated for QUICK_DEFAULT_STRAT_VARIANTS
             if tier == "quick" and var in QUICK_DEFAULT_STRAT_VARIANTS:
                 strats = strats + ("bN",)
             for st in strats:
